@@ -9,7 +9,13 @@ import (
 	fgrpc "github.com/anoideaopen/foundation/core/routing/grpc"
 	freflect "github.com/anoideaopen/foundation/core/routing/reflect"
 	tproto "github.com/anoideaopen/foundation/test/unit/token/proto"
+	"google.golang.org/grpc"
+	gproto "google.golang.org/protobuf/proto"
+	"google.golang.org/protobuf/reflect/protodesc"
+	"google.golang.org/protobuf/reflect/protoregistry"
+	"google.golang.org/protobuf/types/descriptorpb"
 	"google.golang.org/protobuf/types/known/emptypb"
+	"google.golang.org/protobuf/types/known/wrapperspb"
 )
 
 // HGrpcToken is the harness token with the repository's sample gRPC service (test/unit/token/proto:
@@ -69,4 +75,105 @@ func (w *World) AddGrpcToken(symbol string, o ChanOpts) (*Channel, string, error
 		return nil, "", fmt.Errorf("the gRPC service declares no query method")
 	}
 	return ch, fn, nil
+}
+
+// ---- a hand-written service whose request message has no generated validator ----
+//
+//	syntax = "proto3"; package verif;
+//	import "google/protobuf/wrappers.proto";
+//	service ScriptService { rpc Run(google.protobuf.StringValue) returns (google.protobuf.StringValue); }
+//
+// No method options: a batched transaction with authentication (the router's defaults). The descriptor and the
+// service description follow what protoc / protoc-gen-go-grpc generate. Run executes the script carried by the
+// request against the stub of the call context, like the reflect-routed "script".
+const (
+	svcScriptService = "verif.ScriptService"
+	svcScriptRun     = "/verif.ScriptService/Run"
+)
+
+type scriptServer interface {
+	Run(context.Context, *wrapperspb.StringValue) (*wrapperspb.StringValue, error)
+}
+
+// HSvcToken is the harness token with ScriptService next to the reflect router.
+type HSvcToken struct {
+	HToken
+}
+
+func (t *HSvcToken) Run(ctx context.Context, in *wrapperspb.StringValue) (*wrapperspb.StringValue, error) {
+	stub := fgrpc.StubFromContext(ctx)
+	if stub == nil {
+		return nil, fmt.Errorf("no stub in the call context")
+	}
+	out, err := runScriptOn(stub, in.GetValue())
+	if err != nil {
+		return nil, err
+	}
+	return &wrapperspb.StringValue{Value: out}, nil
+}
+
+func scriptRunHandler(srv interface{}, ctx context.Context, dec func(interface{}) error, interceptor grpc.UnaryServerInterceptor) (interface{}, error) {
+	in := new(wrapperspb.StringValue)
+	if err := dec(in); err != nil {
+		return nil, err
+	}
+	if interceptor == nil {
+		return srv.(scriptServer).Run(ctx, in)
+	}
+	info := &grpc.UnaryServerInfo{Server: srv, FullMethod: svcScriptRun}
+	handler := func(ctx context.Context, req interface{}) (interface{}, error) {
+		return srv.(scriptServer).Run(ctx, req.(*wrapperspb.StringValue))
+	}
+	return interceptor(ctx, in, info, handler)
+}
+
+var scriptServiceDesc = grpc.ServiceDesc{
+	ServiceName: svcScriptService,
+	HandlerType: (*scriptServer)(nil),
+	Methods:     []grpc.MethodDesc{{MethodName: "Run", Handler: scriptRunHandler}},
+	Streams:     []grpc.StreamDesc{},
+	Metadata:    "verif_script.proto",
+}
+
+func registerScriptDescriptor() error {
+	if fgrpc.FindServiceDescriptor(svcScriptService) != nil {
+		return nil
+	}
+	fdp := &descriptorpb.FileDescriptorProto{
+		Name: gproto.String("verif_script.proto"), Package: gproto.String("verif"), Syntax: gproto.String("proto3"),
+		Dependency: []string{"google/protobuf/wrappers.proto"},
+		Service: []*descriptorpb.ServiceDescriptorProto{{Name: gproto.String("ScriptService"),
+			Method: []*descriptorpb.MethodDescriptorProto{{Name: gproto.String("Run"),
+				InputType: gproto.String(".google.protobuf.StringValue"), OutputType: gproto.String(".google.protobuf.StringValue")}}}},
+	}
+	fd, err := protodesc.NewFile(fdp, protoregistry.GlobalFiles)
+	if err != nil {
+		return err
+	}
+	return protoregistry.GlobalFiles.RegisterFile(fd)
+}
+
+// AddSvcToken deploys the token with ScriptService on the channel named after the symbol.
+func (w *World) AddSvcToken(symbol string, o ChanOpts) (*Channel, error) {
+	if err := registerScriptDescriptor(); err != nil {
+		return nil, err
+	}
+	tok := &HSvcToken{}
+	gr := fgrpc.NewRouter()
+	rr, err := freflect.NewRouter(tok)
+	if err != nil {
+		return nil, err
+	}
+	gr.RegisterService(&scriptServiceDesc, tok)
+	cc, err := core.NewCC(tok, core.WithRouters(rr, gr))
+	if err != nil {
+		return nil, err
+	}
+	name := strings.ToLower(symbol)
+	ch := w.Peer.AddChannel(name, cc)
+	res := w.Peer.Init(name, w.Admin.Creator, w.ConfigJSON(symbol, o))
+	if !res.OK() {
+		return nil, fmt.Errorf("init %s: %s", name, res.Message)
+	}
+	return ch, nil
 }
